@@ -120,7 +120,17 @@ def print_cases(cx):
     return cases
 
 
-GROUPS = {"print": print_cases, "utf8": utf8_cases, "hash": hash_cases, "iff": iff_cases, "ht": ht_cases, "lyb": lyb_cases}
+def json_cases(cx):
+    rng = cx.sub_rng("fn-json")
+    alpha = [0x00, 0x01, 0x2F, 0x30, 0x35, 0x39, 0x3A, 0x40, 0x41, 0x46, 0x47, 0x5A, 0x60, 0x61, 0x66, 0x67, 0x7A, 0x7F, 0x80, 0xC0, 0xFF]
+    strs = [bytes(t) for t in itertools.product(alpha, repeat=2)] + [bytes([b]) for b in range(256)]
+    strs = [s + bytes(rng.choice(alpha) for _ in range(rng.choice((2, 3)))) for s in strs]
+    for _ in range(cx.n(1500, 40000)):
+        strs.append(bytes(rng.choice(b"0123456789abcdefABCDEF") if rng.random() < 0.8 else rng.choice(alpha) for _ in range(rng.choice((4, 4, 4, 5, 3)))))
+    return ["uhex %s %d" % (hexs(s), rng.choice((0, 7))) for s in strs]
+
+
+GROUPS = {"json": json_cases, "print": print_cases, "utf8": utf8_cases, "hash": hash_cases, "iff": iff_cases, "ht": ht_cases, "lyb": lyb_cases}
 
 
 def run_fn(cx, groups):
